@@ -249,30 +249,33 @@ def run_shard(shard):
             o1 = outcome(lambda: alg.multivector(**kw) + alg.multivector(**kw))
             judge('keyword-construction', f'{ka} (keywords in reversed order)', o0, o1, {'shard': dict(shard, blocks=['list', [list(ka)]])})
             res.evals -= 1
-    for i, ka in enumerate(blocks):
-        study = (0 in ka) and len({spaces.grade_of(k) for k in ka}) <= 2
-        for op in UNARY:
-            floats = op == 'sqrt'
-            if op == 'sqrt' and not study:
-                continue
-            va = values_for(ka, i, floats)
-            if op == 'sqrt':
-                va[0] = abs(va[0]) + 3.0
-            case = {'shard': dict(shard, blocks=['list', [list(ka)]], only=op)}
-            if shard.get('only') and shard['only'] != op:
-                continue
-            o0 = outcome(lambda: getattr(nmv(base, ka, va), op)())
-            o1 = outcome(lambda: getattr(alg.multivector(keys=ka, values=list(va)), op)())
-            judge(op, f'{ka}', o0, o1, case)
-        for j, kb in enumerate(blocks):
-            va, vb = values_for(ka, i), values_for(kb, j + 5)
-            for op in BINARY:
+    # with a wrapper the operators look their function up by name: a second pass over all operators (everything is generated by then)
+    # must give the same elements again
+    for _pass in range(2 if opt['wrapper'] != 'none' else 1):
+        for i, ka in enumerate(blocks):
+            study = (0 in ka) and len({spaces.grade_of(k) for k in ka}) <= 2
+            for op in UNARY:
+                floats = op == 'sqrt'
+                if op == 'sqrt' and not study:
+                    continue
+                va = values_for(ka, i, floats)
+                if op == 'sqrt':
+                    va[0] = abs(va[0]) + 3.0
+                case = {'shard': dict(shard, blocks=['list', [list(ka)]], only=op)}
                 if shard.get('only') and shard['only'] != op:
                     continue
-                case = {'shard': dict(shard, blocks=['list', [list(ka), list(kb)]], only=op)}
-                o0 = outcome(lambda: getattr(nmv(base, ka, va), op)(nmv(base, kb, vb)))
-                o1 = outcome(lambda: getattr(alg.multivector(keys=ka, values=list(va)), op)(alg.multivector(keys=kb, values=list(vb))))
-                judge(op, f'{ka} x {kb}', o0, o1, case)
+                o0 = outcome(lambda: getattr(nmv(base, ka, va), op)())
+                o1 = outcome(lambda: getattr(alg.multivector(keys=ka, values=list(va)), op)())
+                judge(op, f'{ka}', o0, o1, case)
+            for j, kb in enumerate(blocks):
+                va, vb = values_for(ka, i), values_for(kb, j + 5)
+                for op in BINARY:
+                    if shard.get('only') and shard['only'] != op:
+                        continue
+                    case = {'shard': dict(shard, blocks=['list', [list(ka), list(kb)]], only=op)}
+                    o0 = outcome(lambda: getattr(nmv(base, ka, va), op)(nmv(base, kb, vb)))
+                    o1 = outcome(lambda: getattr(alg.multivector(keys=ka, values=list(va)), op)(alg.multivector(keys=kb, values=list(vb))))
+                    judge(op, f'{ka} x {kb}', o0, o1, case)
     res.sample({'config': name, 'options': on, 'blocks': [list(b) for b in blocks][:4], 'operators': len(UNARY) + len(BINARY)})
     return res.asdict()
 
